@@ -7,6 +7,7 @@ import (
 	"crypto/elliptic"
 	cryptorand "crypto/rand"
 	"crypto/sha512"
+	"encoding/binary"
 	"fmt"
 	"math/big"
 	"strings"
@@ -207,6 +208,27 @@ func execKStress(c *ctx, in ev) []ev {
 				}
 			}
 			calls = 3
+			if gBool(in, "volume") {
+				// volume: a fresh random blind in every round - unblinding inverts blinding for ALL of them (the modular
+				// inversion behind it is exercised on as many values as the tier affords; no reference, no signature)
+				one = func(k int) {
+					var b [32]byte
+					binary.LittleEndian.PutUint64(b[:], uint64(k))
+					h := sha512.Sum512(append(b[:8], hashBytes(c.seed, "kvolume", 16)...))
+					copy(b[:], h[:32])
+					cx := h[32 : 32+k%5]
+					bl, err := ed25519.BlindPublicKeyWithContext(pub, b[:], cx)
+					if err != nil {
+						wrong("blind: %v", err)
+						return
+					}
+					back, err := ed25519.UnblindPublicKeyWithContext(bl, b[:], cx)
+					if err != nil || !bytes.Equal(back, pub) {
+						wrong("unblind does not invert blind for blind %x context %x", b, cx)
+					}
+				}
+				calls = 2
+			}
 		} else {
 			curve := kbCurves[strings.TrimPrefix(scheme, "ecdsa-")]
 			sk, _ := rawKey(curve, kbScalar(c.seed, curve, "kstress-sk").Bytes())
@@ -261,7 +283,11 @@ func execKStress(c *ctx, in ev) []ev {
 				}()
 				<-start
 				for r := 0; r < rounds; r++ {
-					one(g + r)
+					if gBool(in, "volume") {
+						one(6 + g*rounds + r) // every round another value
+					} else {
+						one(g + r)
+					}
 				}
 			}()
 		}
@@ -715,6 +741,9 @@ func genKeyBlind(c *ctx, emit func(ev)) {
 	for _, sc := range schemes {
 		emit(ev{"op": "KSeq", "scheme": sc, "steps": structured(), "kind": "structured"})
 		emit(ev{"op": "KStress", "scheme": sc, "g": 16, "rounds": c.tierInt(400, 2000), "kind": "stress"})
+		if sc == "ed25519" {
+			emit(ev{"op": "KStress", "scheme": sc, "g": 16, "rounds": c.tierInt(6000, 125000), "kind": "stress", "volume": true})
+		}
 		if sc == "ed25519" {
 			emit(ev{"op": "KSeq", "scheme": sc, "steps": rareEd(), "kind": "rare-inverse"})
 		} else {
